@@ -12,7 +12,7 @@ let dc = { ea_comma_min = cnum h "ea_comma_min"; ea_sep = cbytes h "ea_sep"; ea_
            cg_line_sep = cbytes h "cg_line_sep"; cg_file_max = cnum h "cg_file_max"; rp_key_name = cbytes h "rp_key_name";
            rp_key_ppid = cbytes h "rp_key_ppid"; rp_unknown = cbytes h "rp_unknown"; rp_root_pid = cnum h "rp_root_pid";
            rp_zero_pid = cnum h "rp_zero_pid"; rp_val_max = cnum h "rp_val_max"; rp_path_fmt = cbytes h "rp_path_fmt";
-           rp_start_is_getpid = cbool h "rp_start_is_getpid"; dt_default_fmt = cbytes h "dt_default_fmt"; dt_buf = cnum h "dt_buf";
+           rp_start_is_getpid = cbool h "rp_start_is_getpid"; rp_value_verbatim = cbool h "rp_value_verbatim"; dt_default_fmt = cbytes h "dt_default_fmt"; dt_buf = cnum h "dt_buf";
            cfg_version = cbytes h "cfg_version"; cfg_configure_command = cbytes h "cfg_configure_command"; path_max = cnum h "path_max";
            login_name_max = cnum h "login_name_max" }
 let ts_wide = (try cbool h "ts_wide" with _ -> false)
